@@ -647,7 +647,8 @@ FIXED_FRAGS = [('boolop', 'and'), ('boolop', 'or'), ('unaryop', 'not'), ('unaryo
                ('arguments', ''), ('arguments_lambda', ''), ('_arglikes', ''), ('_aliases', ''), ('_withitems', ''), ('_type_params', ''),
                ('_comprehensions', ''), ('_comprehension_ifs', ''), ('_decorator_list', ''), ('_ExceptHandlers', ''), ('_match_cases', ''),
                ('_Assign_targets', ''), ('stmts', ''), ('exec', '')] + [('operator', k) for k in OPS]
-STRAY = (')', '(', ',', '=', 'if', ':', '+', 'x', ']', 'for', '*', '@', ';', '1', 'as', '.', '\\')
+STRAY = (')', '(', ',', '=', 'if', ':', '+', 'x', ']', 'for', '*', '@', ';', '1', 'as', '.', '\\',
+         'if x', 'as y', 'for x in y', ': pass', '.z', '= 1', '-> r', 'else z', ', *', 'in w', 'not', 'x y', '):', ')(x', '](x', '}{', 'and', ':= 1', '[0]', '(x)')
 
 # ----------------------------------------------------------------------------------------------------------------------
 
@@ -840,7 +841,8 @@ def mutants(frag, sel):
         return []
 
     sig = [t for t in toks if t.type not in (tokenize.NL, tokenize.NEWLINE, tokenize.INDENT, tokenize.DEDENT, tokenize.COMMENT) and t.start[0] == t.end[0]]
-    out = [f'{frag}) + ({frag}', frag + ' ' + STRAY[sel % len(STRAY)], STRAY[(sel // 7) % len(STRAY)] + ' ' + frag]
+    out = [f'{frag}) + ({frag}', frag + ' ' + STRAY[sel % len(STRAY)], STRAY[(sel // 7) % len(STRAY)] + ' ' + frag,
+           (f'{frag})({frag}', f'{frag}][{frag}', f'{frag}' + '}{' + f'{frag}', f'{frag}), ({frag}', f'{frag}: pass\n case ({frag}')[(sel // 3) % 5], frag + ' ' + STRAY[(sel // 11) % len(STRAY)]]
 
     if sig:
         lines = frag.split('\n')
